@@ -4,7 +4,7 @@
 set -u
 f=$1; old=$2; new=$3; shift 3
 scratch=$(mktemp -d /tmp/osu-scratch-XXXXXX)
-mkdir -p "$scratch/repo" && cp -r /repo/src "$scratch/repo/src"
+mkdir -p "$scratch/repo" && cp -r "${MUTATE_BASE:-/repo}/src" "$scratch/repo/src"   # MUTATE_BASE: tree to mutate (e.g. a scratch copy with candidate fixes applied)
 python3 - "$scratch/repo/src/ocean_science_utilities/$f" "$old" "$new" <<'PY' || { rm -rf "$scratch"; exit 9; }
 import sys
 p, old, new = sys.argv[1:4]
